@@ -8,6 +8,13 @@ require (
 	pgregory.net/rapid v1.3.0
 )
 
+require (
+	github.com/BurntSushi/toml v1.3.2 // indirect
+	github.com/go-ini/ini v1.67.0 // indirect
+	github.com/go-yaml/yaml v2.1.0+incompatible // indirect
+	github.com/ysugimoto/twist v0.10.2 // indirect
+)
+
 replace github.com/ysugimoto/falco/v2 => /repo
 
 replace go.elara.ws/pcre => github.com/dip-proto/go-pcre v0.0.0-20260204122309-dcbff9cb6240
